@@ -5,7 +5,7 @@
   * `C07_tick_bounds`            : for ticks `MIN ≤ ta < tb ≤ MAX` the sqrt prices satisfy `0 < sa < sb` (C06 sweep) — the
                                    hypotheses `0 < sa`, `sa < sb` of every theorem of Proofs/C07.lean are discharged on ticks.
   * `toWei_le`                   : `to_wei` truncates: `a·10^d − 1 < to_wei(a, d) ≤ a·10^d` when the Decimal product is exact
-                                   (`cx.rnd (a·10^d) = a·10^d`: at most 35 significant digits); `C07_fails_toWei_beyond35`:
+                                   (`cx.rnd (a·10^d) = a·10^d`: at most 35 significant digits); `C07_toWei_rounds_up_beyond35`:
                                    beyond 35 digits it is false (`to_wei(Decimal('0.' + '9'*37), 6) = 1000000`).
   * `C07_getLiquidity_wei`       : `get_liquidity` IS `getLiquidityWei` on the converted amounts (guards: amounts convert to
                                    non-negative wei, the two ticks have different sqrt prices — otherwise ZeroDivisionError,
@@ -82,6 +82,11 @@ theorem toWei_le (cx : NumCtx) (a : Rat) (d : Nat) (ha : 0 ≤ a)
   rw [hr]
   exact ⟨b3, b1, b2⟩
 
+theorem C07_toWei_le (cx : NumCtx) (a : Rat) (d : Nat) (ha : 0 ≤ a)
+    (hr : cx.rnd (a * ((pow10 d : Nat) : Rat)) = a * ((pow10 d : Nat) : Rat)) :
+    0 ≤ toWei cx a d ∧ ((toWei cx a d : Int) : Rat) ≤ a * ((pow10 d : Nat) : Rat) ∧
+    a * ((pow10 d : Nat) : Rat) < ((toWei cx a d : Int) : Rat) + 1 := toWei_le cx a d ha hr
+
 /-- … and in any context that keeps non-negative values non-negative the wei amount is non-negative -/
 theorem toWei_nonneg (cx : NumCtx) (hc : ∀ x : Rat, 0 ≤ x → 0 ≤ cx.rnd x) (a : Rat) (d : Nat) (ha : 0 ≤ a) :
     0 ≤ toWei cx a d := by
@@ -91,7 +96,7 @@ theorem toWei_nonneg (cx : NumCtx) (hc : ∀ x : Rat, 0 ≤ x → 0 ≤ cx.rnd x
 /-- **beyond 35 digits `to_wei` can exceed the offered amount**: `to_wei(Decimal('0.' + '9'*37), 6) = 1000000` although
     the offer is `999999.999…` wei — the product is rounded up to `1000000` before `int()`.  (Replayed on the code.)
     The excess is below `10⁻³⁵` relative, inside the property's `10⁻³⁰`. -/
-theorem C07_fails_toWei_beyond35 :
+theorem C07_toWei_rounds_up_beyond35 :
     toWei NumCtx.py (1 - 1 / 10 ^ 37) 6 = 1000000 ∧
     ¬ (((toWei NumCtx.py (1 - 1 / 10 ^ 37) 6 : Int) : Rat) ≤ (1 - 1 / 10 ^ 37) * ((pow10 6 : Nat) : Rat)) := by
   have h : toWei NumCtx.py (1 - 1 / 10 ^ 37) 6 = 1000000 := by decide +kernel
